@@ -34,6 +34,7 @@ class DecoratorEffect:
         self.assigned = {}  # attr -> FunctionDef node
         self.signature = {}  # attr -> 'raw-class' | 'raw-init' | 'unknown'
         self.sig_node = {}
+        self.cond = None  # (text, node, kind): the signature is published only when an extra condition holds
 
 
 def decorator_effect(prog, deco_qual) -> DecoratorEffect:
@@ -67,6 +68,14 @@ def decorator_effect(prog, deco_qual) -> DecoratorEffect:
                 t = ast.Compare(left=t.operand.left, ops=[ast.Is()], comparators=t.operand.comparators)
             if isinstance(t, ast.Compare) and len(t.ops) == 1 and isinstance(t.ops[0], ast.Is) and isinstance(t.left, ast.Name) and isinstance(t.comparators[0], ast.Constant) and t.comparators[0].value is None and not st.orelse:
                 continue  # runs only when no signature could be computed: for an inspectable class nothing in it is published
+            if isinstance(t, ast.BoolOp) and isinstance(t.op, ast.And) and len(t.values) == 2 and any(isinstance(x, ast.Attribute) and x.attr in ("__signature__", "__wrapped__") for x in ast.walk(st)):
+                g, extra = t.values
+                if isinstance(g, ast.Compare) and len(g.ops) == 1 and isinstance(g.ops[0], ast.IsNot) and isinstance(g.left, ast.Name) and isinstance(g.comparators[0], ast.Constant) and g.comparators[0].value is None:
+                    # `sig is not None and <extra>`: published for some inspectable classes only
+                    kind = "has-parameters" if isinstance(extra, ast.Attribute) and extra.attr == "parameters" and isinstance(extra.value, ast.Name) and extra.value.id == g.left.id else "other"
+                    if kind == "has-parameters":
+                        eff.cond = (util.unparse(extra), st, kind)
+                        t = g
             guard_ok = (
                 isinstance(t, ast.Compare)
                 and len(t.ops) == 1
@@ -245,7 +254,20 @@ def signature_visibility(chk):
     prog = chk.program
     rule = "O4.3"
     n = 0
+    seen_cond = set()
     for cls in template_classes(prog):
+        for d in cls.decorators:
+            eff = decorator_effect(prog, d) if d else DecoratorEffect()
+            if eff.cond is not None and d not in seen_cond:
+                seen_cond.add(d)
+                chk.bad(
+                    rule,
+                    d,
+                    "the decorator publishes the constructor signature on the replaced __new__ only when `%s` holds: for a class whose constructor takes no parameters inspect.signature(cls) then shows __new__(*args, **kwargs), "
+                    "so the eager argument check of its templates is vacuous (cls.s(1, x=2) is accepted and only fails when the chain is bound)" % eff.cond[0],
+                    node=eff.cond[1],
+                    stmt="signature published conditionally: %s" % eff.cond[0],
+                )
         init, declared = declared_init(prog, cls)
         if init is None:
             continue
